@@ -3,7 +3,7 @@
 import json, os, shutil, sys
 prop, name, needs = sys.argv[1], sys.argv[2], sys.argv[3]
 caught = sys.argv[4] if len(sys.argv) > 4 else ""
-src = "/tmp/seed/out_%s" % prop
+src = os.environ.get("SEED_SRC") or "/tmp/seed/out_%s" % prop
 dst = "/verif/seeded/%s" % name
 os.makedirs(dst, exist_ok=True)
 for f in ("patch.diff", "demo.rs", "demo_cmd.txt", "notes.md"):
@@ -12,7 +12,7 @@ for f in ("patch.diff", "demo.rs", "demo_cmd.txt", "notes.md"):
 log = open(os.path.join(src, "verify.log")).read() if os.path.exists(os.path.join(src, "verify.log")) else ""
 res = [l for l in log.splitlines() if l.startswith("RESULT") or l.startswith("CONFIRMED") or "tests run" in l]
 meta = {"property": prop, "needs_to_manifest": needs,
-        "what_i_ran": ["tools/seed_verify.sh /tmp/seed/out_%s  (scratch worktree of /repo at the pinned commit: demo test passes without the patch, fails with it; `cargo nextest run --workspace --offline` passes 652/652 with the patch)" % prop,
+        "what_i_ran": ["tools/seed_verify.sh /tmp/seed/out_%s  (scratch worktree of /repo at /repo HEAD: demo test passes without the patch, fails with it; `cargo nextest run --workspace --offline` passes 652/652 with the patch)" % prop,
                        "tools/seedcheck.sh seeded/%s/patch.diff %s  (git -C /repo apply, run the check, git -C /repo checkout -- .)" % (name, prop)],
         "verification_result": res[-3:], "origin": "independent sub-agent given only the property text and a scratch worktree",
         "caught_by": caught}
